@@ -100,6 +100,7 @@ class Driver:
         self.m.setup({"tickSize": tick, "marketPrice": mp0})
         self.market_id = market_id
         self.objs = []   # Order objects by "add" index
+        self.cancels = {}   # Cancel objects by order index (re-used when the same order is cancelled again)
 
     # ---- observations, mirroring Market.v ov_record / q_state / q_at / q_series
     def order_fields(self, l, t):
@@ -217,7 +218,13 @@ class Driver:
             if k == "resubmit":
                 return self.log_obs(m._add_order(self.objs[op[1]]))
             if k == "cancel":
-                return self.log_obs(m._cancel_order(self.Cancel(order=self.objs[op[1]])))
+                # a user agent may hand in the same Cancel object again, or one that already carries a (stale) time: every second
+                # cancel of an order re-uses the object of the first, and every third first cancel is built with placed_at=0
+                c = self.cancels.get(op[1])
+                if c is None:
+                    c = self.Cancel(order=self.objs[op[1]], placed_at=0) if op[1] % 3 == 0 else self.Cancel(order=self.objs[op[1]])
+                    self.cancels[op[1]] = c
+                return self.log_obs(m._cancel_order(c))
             if k == "cancel_foreign":
                 o = self.Order(agent_id=0, market_id=self.market_id + 1, is_buy=True, kind=self.MARKETK, volume=1)
                 o.order_id, o.placed_at = 0, 0
